@@ -35,6 +35,8 @@ class Prop(RefProp):
                 gen_pipes.handler_jumps(rng, case)
             elif r < 0.19:
                 gen_pipes.per_iteration_decorators(rng, case)
+            elif r < 0.22:
+                gen_pipes.empty_foreach_call(rng, case)
             cases.append(case)
         return cases
 
